@@ -4,7 +4,8 @@
   /repo/lang/axcut2aarch64 (model: Scc/A64/Backend.lean) on the machine of Scc/A64/Machine.lean.
 
   * `C07_statement`  — the full property, kept as a `def : Prop` (NOT proved: it needs the generic
-    simulation "Theorem A" and the memory contracts).
+    simulation "Theorem A" instantiated with the contracts below — arithmetic/moves/jumps and, since
+    2026-09-26, the memory contracts — and the refinement abstract object heap ⟷ `Scc.Heap` blocks).
   * proved, for ALL operand values / literals / placements (no enumeration):
       `C07_load_immediate_correct`, `C07_op_correct` (5 operators × 8 placements, `rem` through
       SDIV+MSUB and the scratch dance), `C07_compare_correct`, `C07_compare_zero_correct`,
@@ -16,10 +17,29 @@
     The model follows the repaired code (`op`); `C07_switch_jump_spill` is the positive theorem for
     that placement, and `C07_a64_switch_spill_witness` keeps the witness for the explicit old variant
     `opOld` / `a64BackendOld`.
+  * MEMORY contracts of memory.rs (section "Memory contracts" below; proofs in Scc/A64/MemProofs*.lean),
+    stated on the block semantics with forward local labels `execFwd` (MemProofsFwd.lean: `B`/`B.cond`
+    as in the machine's `step`) against the heap model Scc/Heap/Model.lean through `HeapRel`, with the
+    same abstract vocabulary as Scc/X86 (`HeapRel`, `FrameT`, `LabsIn`): for EVERY placement of the
+    pointer / target (register / spill slot): `C07_shareBlockN_contract`, `C07_eraseBlock_contract`,
+    `C07_acquireBlock_contract` (linear free list / lazy free list with deferred erasure of the three
+    children / bump of the frontier), `C07_store_contract` (ANY number of fields: one block or a chain of
+    linked blocks, variables and block temporaries in registers and spill slots, crossing the boundary
+    at 13 variables), `C07_load_contract` (unique branch: the blocks of the chain are released and the
+    children move; shared branch: decrement and share every pointer child; ANY number of fields, memory
+    blocks in registers or spill slots through TEMPORARY_TEMP / SPILL_TEMP).
+    `C07_block_bridge` (MemProofsBridge.lean) carries every such contract over to the machine's `runLoop`:
+    a block laid out in the program text (`BlockAt`: its instructions at consecutive items, its labels
+    resolving into the block) that `execFwd` runs to its end is run by `runLoop` in finitely many steps;
+    `C07_layout_blockAt` (MemProofsLayout.lean) derives `BlockAt` from the machine's `layout` of a text
+    `pre ++ block ++ post` (no hook comment inside, block labels not defined earlier and pairwise different).
   No `bv_decide`, no `native_decide` anywhere (the halfword identities behind `load_immediate` are
   proved through `toNat`/`omega` and bit by bit in Scc/A64/Halfword.lean).
 -/
 import Scc.A64.JumpLemmas
+import Scc.A64.MemProofsLoadTop
+import Scc.A64.MemProofsBridge
+import Scc.A64.MemProofsLayout
 import Scc.AxCut.LinTyping
 
 namespace Scc.A64
@@ -166,6 +186,220 @@ example : ∃ σ', execCodes defaultMem (a64BackendOld.binop .sum a64BackendOld.
     exState_spOk 1 (by decide) 0x400100 8 (by simp) (by rw [tempVal_spill]; simp)
   simpa using this
 
+/-! ## Memory contracts (memory.rs) -/
+
+/-- `share_block_n`: whenever the heap model shares the block `p` (`n` more references; null pointer:
+nothing), the emitted code — pointer in a register or in a spill slot — runs to its end from every
+state that represents the heap (`HeapRel`), and the final state represents the model's result; only
+TEMP, TEMP2, the flags and that one heap word change; SP and the stack outside the spill area are
+unchanged.  (`hno`: the model's words are unbounded naturals, the incremented count must not wrap.) -/
+theorem C07_shareBlockN_contract {c : MemCfg} {room : Nat} {σ : State} (h8 : c.heapBase % 8 = 0)
+    (B : SpOk c σ.sp room) {h h' : Scc.Heap.HState} (R : HeapRel c σ h) {t : Temporary} (ht : t.isVar)
+    {p : Word} (hv : σ.tempVal t = some p) {n : Nat} (hn : n < 4096)
+    (hop : Scc.Heap.shareBlock h p.toNat n = .ok h') (hno : p ≠ 0 → h.mem.get p.toNat + n < 2 ^ 64) (k : Nat) :
+    ∃ code, (a64Backend.shareBlockN t n).run k = .ok (code, k + 1) ∧ LabsIn code k (k + 1) ∧
+      ∃ σ', execFwd c code σ = .ok (σ', .next) ∧ SpOk c σ'.sp room ∧ HeapRel c σ' h' ∧
+        FrameT σ σ' (fun u => u = .register TEMP ∨ u = .register TEMP2) :=
+  shareBlockN_contract h8 B R ht hv hn hop hno k
+
+/-- `erase_block`: whenever the heap model erases one reference to `p` (null: nothing; count 0: the
+block becomes the head of the lazy free list, FREE := p; otherwise the count is decremented), the
+emitted code — pointer in a register or in a spill slot — runs to its end, and the final state
+represents the model's result; only TEMP, TEMP2, FREE, the flags and the header word of `p` change. -/
+theorem C07_eraseBlock_contract {c : MemCfg} {room : Nat} {σ : State} (h8 : c.heapBase % 8 = 0)
+    (B : SpOk c σ.sp room) {h h' : Scc.Heap.HState} (R : HeapRel c σ h) {t : Temporary} (ht : t.isVar)
+    {p : Word} (hv : σ.tempVal t = some p) (hop : Scc.Heap.eraseBlock h p.toNat = .ok h') (k : Nat) :
+    ∃ code, (a64Backend.eraseBlock t).run k = .ok (code, k + 3) ∧ LabsIn code k (k + 3) ∧
+      ∃ σ', execFwd c code σ = .ok (σ', .next) ∧ SpOk c σ'.sp room ∧ HeapRel c σ' h' ∧
+        FrameT σ σ' (fun u => u = .register TEMP ∨ u = .register TEMP2 ∨ u = .register FREE) :=
+  eraseBlock_contract h8 B R ht hv hop k
+
+/-- `acquire_block`: from every state that represents an abstract heap on which `Scc.Heap.acquire`
+succeeds — (1) next block of the linear free list (its header is zeroed), (2) head of the lazy free
+list, whose three children are erased now (deferred release), (3) bump of the frontier — the emitted
+code (target in a register or in a spill slot) runs to its end; the final state has the same SP,
+represents the model's result heap and holds the acquired block in the target.  Only the target,
+HEAP, FREE, TEMP, TEMP2, the flags and the heap change. -/
+theorem C07_acquireBlock_contract {c : MemCfg} {room : Nat} {σ : State} (h8 : c.heapBase % 8 = 0)
+    (B : SpOk c σ.sp room) {h h' : Scc.Heap.HState} (R : HeapRel c σ h) {t : Temporary} (ht : t.isVar)
+    {new : Nat} (hop : Scc.Heap.acquire h = .ok (h', new)) (k : Nat) :
+    ∃ code, (acquireBlock t).run k = .ok (code, k + 13) ∧ LabsIn code k (k + 13) ∧
+      ∃ σ', execFwd c code σ = .ok (σ', .next) ∧ SpOk c σ'.sp room ∧ HeapRel c σ' h' ∧
+        (∃ w, σ'.tempVal t = some w ∧ w.toNat = new) ∧
+        FrameT σ σ' (fun u => u = t ∨ u = .register HEAP ∨ u = .register FREE ∨ u = .register TEMP ∨
+          u = .register TEMP2) :=
+  acquireBlock_contract h8 B R ht hop k
+
+/-- `store` (Memory::store), for ANY number of fields and EVERY placement: the variables `toStore`
+(context positions `|rem| …`, holding the model fields `fs`: `EnvFields`, `FieldAt`) are stored as one
+object — one block for up to `FIELDS_PER_BLOCK` fields, otherwise a chain of linked blocks, each taken
+by `acquire_block`, unused fields zeroed — exactly as `Scc.Heap.storeObj` does on the abstract heap.
+The code runs to its end; the final state has the same SP, represents the model's result heap, and the
+first temporary of position `|rem|` holds the object pointer (0 for an object without fields).
+Changed: HEAP, FREE, TEMP, TEMP2, the flags, the heap, and FIRST temporaries of positions `≥ |rem|`
+(targets of `acquire_block`); every variable of `rem` and every second temporary is preserved. -/
+theorem C07_store_contract {c : MemCfg} {room : Nat} {σ : State} (h8 : c.heapBase % 8 = 0)
+    (B : SpOk c σ.sp room) {h h' : Scc.Heap.HState} (R : HeapRel c σ h)
+    {toStore rem : Ctx} {fs : List Scc.Heap.Field} (hcap : 2 * (rem.length + toStore.length) ≤ 280)
+    (hE : EnvFields (mview σ) rem.length toStore fs) {ptr : Nat}
+    (hop : Scc.Heap.storeObj h fs = .ok (h', ptr)) (k : Nat) :
+    ∃ code k', (a64Backend.store toStore rem).run k = .ok (code, k') ∧ k ≤ k' ∧ LabsIn code k k' ∧
+      ∃ σ', execFwd c code σ = .ok (σ', .next) ∧ SpOk c σ'.sp room ∧ HeapRel c σ' h' ∧
+        (∃ w, σ'.tempVal (posTemp (2 * rem.length)) = some w ∧ w.toNat = ptr) ∧
+        FrameT σ σ' (fun u => u = .register HEAP ∨ u = .register FREE ∨ u = .register TEMP ∨
+          u = .register TEMP2 ∨ ∃ j, u = posTemp (2 * (rem.length + j))) :=
+  store_contract h8 B R hcap hE hop k
+
+/-- `load` (Memory::load), for ANY number of fields and EVERY placement: the object whose pointer is in
+the first temporary of position `|existing|` is unpacked into the variables `toLoad` (positions
+`|existing| …`, kinds `kindOf`) exactly as `Scc.Heap.loadObj` does on the abstract heap — UNIQUE branch
+(count 0): every block of the chain is released onto the linear free list (`[b] := HEAP; HEAP := b`)
+and the children move into the environment; SHARED branch (count > 0): the count is decremented and
+every pointer child gets one more reference (`share_block`).  A memory block whose temporary is a
+spill slot is accessed through TEMPORARY_TEMP (X10), which is evacuated to SPILL_TEMP (spill slot 0)
+on first use and restored after the last block.  The code runs to its end; the final state has the same
+SP, represents the model's result heap, and the variables hold the loaded fields (`EnvFields`).
+Changed: HEAP, TEMP, TEMP2, the flags, the heap, SPILL_TEMP, the temporaries of the loaded positions;
+preserved: FREE, every variable of `existing` (X10 included), the stack outside the spill area.
+`hno` (shared branch only): the incremented counts of the model (unbounded naturals) fit in 64 bits. -/
+theorem C07_load_contract {c : MemCfg} {room : Nat} {σ : State} (h8 : c.heapBase % 8 = 0)
+    (B : SpOk c σ.sp room) {h h' : Scc.Heap.HState} (R : HeapRel c σ h)
+    {toLoad existing : Ctx} (hcap : 2 * (existing.length + toLoad.length) ≤ 280) {pw : Word}
+    (hp : σ.tempVal (posTemp (2 * existing.length)) = some pw) {vals : List Scc.Heap.Field}
+    (hop : Scc.Heap.loadObj h pw.toNat (toLoad.map kindOf) = .ok (h', vals))
+    (hno : h.mem.get pw.toNat ≠ 0 → ∀ a, h'.mem.get a < 2 ^ 64) (k : Nat) :
+    ∃ code k', (a64Backend.load toLoad existing).run k = .ok (code, k') ∧ k ≤ k' ∧ LabsIn code k k' ∧
+      ∃ σ', execFwd c code σ = .ok (σ', .next) ∧ SpOk c σ'.sp room ∧ HeapRel c σ' h' ∧
+        EnvFields (mview σ') existing.length toLoad vals ∧
+        FrameT σ σ' (fun u => u = .register HEAP ∨ u = .register TEMP ∨ u = .register TEMP2 ∨
+          u = .spill SPILL_TEMP ∨
+          ∃ m, 2 * existing.length ≤ m ∧ m < 2 * (existing.length + toLoad.length) ∧ u = posTemp m) :=
+  load_contract h8 B R hcap hp hop hno k
+
+/-- THE BRIDGE from the block semantics to the machine: if the laid-out program contains the block at
+item `pc0` (`BlockAt`: instructions at consecutive item indices, no hook inside, every label the block
+defines resolves to its position in the block — labels are unique in the text, C14) and `execFwd` runs
+the block to its end, then `runLoop` does the same in `n` steps (fuel), arriving just behind the
+block with the same final state, nothing printed, no monitor run. -/
+theorem C07_block_bridge {p : Prog} {cfg : MonCfg} {pc0 : Nat} {codes : List Code} (hb : BlockAt p pc0 codes)
+    {σ σ' : State} (hx : execFwd cfg.mem codes σ = .ok (σ', .next))
+    (out : List (Bool × Word)) (steps blocks : Nat) :
+    ∃ n, ∀ fuel,
+      runLoop p cfg (n + fuel) { σ := σ, pc := pc0, out := out, steps := steps, blocks := blocks } =
+        runLoop p cfg fuel { σ := σ', pc := pc0 + itemIdx codes codes.length, out := out, steps := steps + n,
+                             blocks := blocks } :=
+  runLoop_steps (steps_of_execFwd hb hx) out steps blocks
+
+/-- `BlockAt` from the machine's `layout`: the parsed text is `pre ++ blk ++ post`, the lines `blk` are
+what the block `codes` parses to (`plineOf`: instructions, labels, plain comments, directives), no label
+of the block is defined in `pre`, and the labels of the block are pairwise different (C14). -/
+theorem C07_layout_blockAt (pre post blk : List (Nat × PLine)) (codes : List Code)
+    (hblk : blk.map (fun x => some x.2) = codes.map plineOf)
+    (hfresh : ∀ l, Code.LAB l ∈ codes → ∀ x ∈ pre, x.2 ≠ .label l)
+    (hnodup : ∀ (j1 j2 : Nat) (l : String), codes[j1]? = some (Code.LAB l) → codes[j2]? = some (Code.LAB l) → j1 = j2) :
+    BlockAt (layout (pre ++ blk ++ post)) (pre.filterMap itemOf).length codes :=
+  layout_blockAt pre post blk codes hblk hfresh hnodup
+
+/-! ### non-vacuity of the memory contracts -/
+
+/-- the heap right after `setup`: HEAP = base, FREE = base + 64, all words zero -/
+def exHeap : Scc.Heap.HState := Scc.Heap.init defaultMem.heapBase (defaultMem.heapBase + defaultMem.heapBytes)
+
+/-- a machine state representing it, with a pointer to the block at `base + 128` in X5 and in spill
+slot 7 -/
+def exMemState : State :=
+  (((exState.setReg 0 (some (BitVec.ofNat 64 defaultMem.heapBase))).setReg 1
+      (some (BitVec.ofNat 64 (defaultMem.heapBase + 64)))).setReg 5
+      (some (BitVec.ofNat 64 (defaultMem.heapBase + 128)))).setSlot (exState.slotAddr 7)
+      (BitVec.ofNat 64 (defaultMem.heapBase + 128))
+
+theorem exMemState_spOk : SpOk defaultMem exMemState.sp 96 := exState_spOk
+
+theorem exMemState_heapRel : HeapRel defaultMem exMemState exHeap := by
+  refine ⟨rfl, rfl, fun a => ?_, ⟨_, rfl, by decide⟩, ⟨_, rfl, by decide⟩⟩
+  simp [exHeap, Scc.Heap.init, exMemState, exState, State.setReg, State.setSlot]
+
+example : (Temporary.register (.x 5)).isVar ∧ (Temporary.spill 7).isVar ∧ defaultMem.heapBase % 8 = 0 := by decide
+
+example : exMemState.tempVal (.register (.x 5)) = some (BitVec.ofNat 64 (defaultMem.heapBase + 128)) := rfl
+
+example : exMemState.tempVal (.spill 7) = some (BitVec.ofNat 64 (defaultMem.heapBase + 128)) := by
+  rw [tempVal_spill]
+  simp [exMemState, State.slotAddr]
+
+/-- the model shares / erases that block on `exHeap` (count 0 ↦ 2, resp. onto the lazy free list) -/
+example : ∃ h', Scc.Heap.shareBlock exHeap (BitVec.ofNat 64 (defaultMem.heapBase + 128)).toNat 2 = .ok h' ∧
+    exHeap.mem.get (BitVec.ofNat 64 (defaultMem.heapBase + 128)).toNat + 2 < 2 ^ 64 := by
+  refine ⟨_, by simp [Scc.Heap.shareBlock, Scc.Heap.rd, Scc.Heap.wr, exHeap, Scc.Heap.init, defaultMem]; rfl, ?_⟩
+  simp [exHeap, Scc.Heap.init]
+
+example : ∃ h', Scc.Heap.eraseBlock exHeap (BitVec.ofNat 64 (defaultMem.heapBase + 128)).toNat = .ok h' := by
+  refine ⟨_, by simp [Scc.Heap.eraseBlock, Scc.Heap.rd, Scc.Heap.wr, exHeap, Scc.Heap.init, defaultMem]; rfl⟩
+
+/-- … and acquires a block from it (case (3): bump of the frontier) -/
+example : ∃ h' new, Scc.Heap.acquire exHeap = .ok (h', new) := by
+  refine ⟨_, _, by simp [Scc.Heap.acquire, Scc.Heap.rd, exHeap, Scc.Heap.init, defaultMem, Scc.Heap.blockSize]; exact ⟨rfl, rfl⟩⟩
+
+/-- the integer variable at context position 0 (word part in X5 = `posTemp 1`) holds a model field, and
+the model stores it as a one-field object -/
+example : EnvFields (mview exMemState) 0 [⟨⟨"a", 1⟩, .ext, .i64⟩] [.int (defaultMem.heapBase + 128)] := by
+  refine ⟨?_, trivial⟩
+  unfold FieldAt
+  rw [if_pos (by rfl)]
+  exact ⟨BitVec.ofNat 64 (defaultMem.heapBase + 128), by decide, rfl⟩
+
+example : ∃ r, Scc.Heap.storeObj exHeap [.int (defaultMem.heapBase + 128)] = .ok r := by
+  rw [Scc.Heap.storeObj, heap_storeFields_cons _ _ (by simp)]
+  simp [Scc.Heap.storeValues, Scc.Heap.storeValuesRev, Scc.Heap.storeValue, Scc.Heap.restLength, Scc.Heap.wr, Scc.Heap.rd,
+    Scc.Heap.storeZeros, Scc.Heap.storeZerosFrom, exHeap, Scc.Heap.init, defaultMem, Scc.Heap.fieldsPerBlock,
+    Scc.Heap.BlockPosition.toNat, Scc.Heap.sndOff, Scc.Heap.fstOff, Scc.Heap.fieldOffset, Scc.Heap.acquire,
+    Scc.Heap.Mem.get_set, heap_storeFields_nil, Scc.Heap.blockSize]
+
+/-- positions 0..25 are registers X4..X29, from position 26 (= variable 13) on spill slots -/
+example : posTemp 25 = .register (.x 29) ∧ posTemp 26 = .spill 1 ∧ posTemp 280 = .spill 255 := by decide
+
+/-- a state with the object pointer `base + 128` in X4 = `posTemp 0`, and the model loading one integer
+variable from that (all-zero, count 0 ⟹ unique branch) block -/
+def exLoadState : State := exMemState.setReg 4 (some (BitVec.ofNat 64 (defaultMem.heapBase + 128)))
+
+example : HeapRel defaultMem exLoadState exHeap := by
+  refine ⟨rfl, rfl, fun a => ?_, ⟨_, rfl, by decide⟩, ⟨_, rfl, by decide⟩⟩
+  simp [exHeap, Scc.Heap.init, exLoadState, exMemState, exState, State.setReg, State.setSlot]
+
+example : exLoadState.tempVal (posTemp (2 * ([] : Ctx).length)) =
+    some (BitVec.ofNat 64 (defaultMem.heapBase + 128)) := rfl
+
+example : ∃ r, Scc.Heap.loadObj exHeap (BitVec.ofNat 64 (defaultMem.heapBase + 128)).toNat
+    (([⟨⟨"a", 1⟩, .ext, .i64⟩] : Ctx).map kindOf) = .ok r := by
+  have hk : ([⟨⟨"a", 1⟩, .ext, .i64⟩] : Ctx).map kindOf = [false] := rfl
+  rw [hk]
+  simp only [Scc.Heap.loadObj]
+  rw [heap_loadFields_cons _ _ (by simp)]
+  have hr : Scc.Heap.restLength [false].length Scc.Heap.posLast = 0 := by decide
+  rw [hr]
+  simp [Scc.Heap.rd, Scc.Heap.wr, exHeap, Scc.Heap.init, defaultMem, Scc.Heap.fieldsPerBlock,
+    Scc.Heap.BlockPosition.toNat, heap_loadFields_nil, relStep, Scc.Heap.releaseBlock, Scc.Heap.loadValues,
+    Scc.Heap.loadValuesRev, Scc.Heap.loadValue, Scc.Heap.sndOff, Scc.Heap.fieldOffset, Scc.Heap.blockSize]
+
+/-- the lines of a small block (`CMP X5, 0; BEQ lab1; lab1:`) after the entry label -/
+example : BlockAt (layout ([(1, .label "asm_main")] ++
+      [(2, .instr (.cmpi (.x 5) 0)), (3, .instr (.bcond .eq "lab1")), (4, .label "lab1")] ++ [(5, .instr .ret)]))
+    0 [.CMPI (.x 5) 0, .BEQ "lab1", .LAB "lab1"] := by
+  refine C07_layout_blockAt [(1, .label "asm_main")] [(5, .instr .ret)] _ _ rfl ?_ ?_
+  · intro l hl x hx
+    simp only [List.mem_cons, reduceCtorEq, Code.LAB.injEq, List.not_mem_nil, or_false, false_or] at hl hx
+    subst hl hx
+    simp
+  · intro j1 j2 l h1 h2
+    match j1, j2 with
+    | 0, _ => simp at h1
+    | 1, _ => simp at h1
+    | 2, 0 => simp at h2
+    | 2, 1 => simp at h2
+    | 2, 2 => rfl
+    | 2, n + 3 => simp at h2
+    | n + 3, _ => simp at h1
+
 #print axioms C07_load_immediate_correct
 #print axioms C07_op_correct
 #print axioms C07_compare_correct
@@ -176,5 +410,12 @@ example : ∃ σ', execCodes defaultMem (a64BackendOld.binop .sum a64BackendOld.
 #print axioms C07_switch_jump_register
 #print axioms C07_switch_jump_spill
 #print axioms C07_a64_switch_spill_witness
+#print axioms C07_shareBlockN_contract
+#print axioms C07_eraseBlock_contract
+#print axioms C07_acquireBlock_contract
+#print axioms C07_store_contract
+#print axioms C07_load_contract
+#print axioms C07_block_bridge
+#print axioms C07_layout_blockAt
 
 end Scc.A64
